@@ -129,6 +129,10 @@ impl Monitors {
                 Ev::SetState { node, state, .. } => self.on_set_state(node, state),
                 Ev::Step { node, kind, snap, .. } => self.on_step(node, kind, snap),
                 Ev::Restart { node, durable, .. } => self.on_restart(node, durable),
+                Ev::InboundPanic { node, location, message } => {
+                    self.count("inbound_queue_panics");
+                    self.alert("C10", format!("panic|{location}|inbound-queue"), format!("handing a well-signed message to node {node}'s inbound queue panicked: {message}"));
+                }
             }
         }
     }
@@ -163,7 +167,7 @@ impl Monitors {
         }
         if n == want.0 {
             self.count("blocks_appended");
-            self.stored_next[node] = n + 1;
+            self.stored_next[node] = n.saturating_add(1);
         }
     }
 
@@ -354,7 +358,7 @@ impl Monitors {
         let max = t.cqc.max(t.tqc);
         let ok = match max {
             None => t.view == 0,
-            Some(m) => t.view == m + 1,
+            Some(m) => Some(t.view) == m.checked_add(1),
         };
         if !ok {
             self.alert("C05", format!("view-not-justified||{whence}"), format!("node {node}: view {} with highest commit certificate {:?} and timeout certificate {:?} ({whence})", t.view, t.cqc, t.tqc));
@@ -526,14 +530,14 @@ impl Monitors {
                 ChonkyMsg::ReplicaCommit(v) => {
                     self.seen_commit[node].insert(msg.key.clone(), v.view.number.0);
                     // either nothing changes (no certificate yet) or the replica enters view+1 in Prepare holding the certificate
-                    let advanced = post.view.0 == v.view.number.0 + 1 && post.phase == Phase::Prepare && post.high_commit_qc.as_ref().map(|q| q.view().number.0) == Some(v.view.number.0);
+                    let advanced = Some(post.view.0) == v.view.number.0.checked_add(1) && post.phase == Phase::Prepare && post.high_commit_qc.as_ref().map(|q| q.view().number.0) == Some(v.view.number.0);
                     if !unchanged && !advanced {
                         self.alert("C05", "state-after-commit-vote||", format!("node {node}: accepting a commit vote for view {} led from view {} {:?} to view {} {:?}", v.view.number.0, pre.view.0, pre.phase, post.view.0, post.phase));
                     }
                 }
                 ChonkyMsg::ReplicaTimeout(t) => {
                     self.seen_timeout[node].insert(msg.key.clone(), t.view.number.0);
-                    let advanced = post.view.0 == t.view.number.0 + 1 && post.phase == Phase::Prepare && post.high_timeout_qc.as_ref().map(|q| q.view.number.0) == Some(t.view.number.0);
+                    let advanced = Some(post.view.0) == t.view.number.0.checked_add(1) && post.phase == Phase::Prepare && post.high_timeout_qc.as_ref().map(|q| q.view.number.0) == Some(t.view.number.0);
                     if !unchanged && !advanced {
                         self.alert("C05", "state-after-timeout-vote||", format!("node {node}: accepting a timeout vote for view {} led from view {} {:?} to view {} {:?}", t.view.number.0, pre.view.0, pre.phase, post.view.0, post.phase));
                     }
